@@ -243,6 +243,10 @@ NOT_APPLICABLE = {
 PENDING = ['C11', 'C19', 'C01', 'C02', 'C03', 'C04', 'C05', 'C06', 'C08', 'C09', 'C10', 'C12', 'C13', 'C15', 'C17', 'C18', 'C20']
 
 
+CLEN_TEXT = (" (CLEN) The Clenshaw summations the series go through (Geodesic::SinCosSeries / AuxLatitude::Clenshaw / DST::eval, "
+             "integral) return, for every length 0..9, the defining trigonometric sum - a polynomial identity modulo sin^2+cos^2=1 "
+             "decided by symbolic evaluation.")
+
 LINT_TEXT = (" Over the property's anchor files the check also runs the repository's contradiction rules, each with a positive "
              "control: SW1 swapped same-named arguments, OV1 product overflowing before widening, N1 fold before use, D3 stale "
              "sine/cosine after its angle is corrected, CP1 consistent renaming between sibling clones, NB1 normalised string "
@@ -281,7 +285,8 @@ def manifest():
     checks = []
     for pid in sorted(CHECKS):
         c = dict(CHECKS[pid])
-        c['text'] = c['text'] + EXTRA_TEXT.get(pid, '') + LINT_TEXT
+        c['text'] = c['text'] + EXTRA_TEXT.get(pid, '') + (CLEN_TEXT if pid in ('C01', 'C02', 'C03', 'C08', 'C09', 'C12', 'C15')
+                                                             else '') + LINT_TEXT
         checks.append({
             'property_id': pid,
             'quick_cmd': 'bin/glcheck %s --tier quick' % pid,
